@@ -15,7 +15,8 @@ EXPLANATION = (
     "ones is a pure concatenation of its children (nothing is dropped or re-ordered), and the C `power` callback leaves no `**`; R3 the regex pre-pass "
     "of KROMEReaction.rateexpr consists of exactly the reviewed rewritings: the d-exponent pattern requires a digit before `d` and keeps sign and "
     "digits of the exponent, the idx_ suffix patterns admit species names of any length and agree with Species.alias (p -> II, m -> M, neutral -> I); "
-    "R4 directive state is reset by initialize() for every class attribute preprocessing mutates (shared with C17.R4).")
+    "R4 directive state is reset by initialize() for every class attribute preprocessing mutates (shared with C17.R4); R5 the translation entry "
+    "points (KROMEReaction.rateexpr, ExpressionConverter.read/__str__/__format__) are not memoised -- reaction equality ignores the rate string.")
 ASSUMPTIONS = [
     "numerical equality of the two expressions over all valuations is not decided",
     "lark's grammar loader represents the grammar text faithfully",
@@ -69,6 +70,28 @@ def check(ctx):
     _r2(ctx, pkg, ci, gr)
     _r3(ctx, pkg)
     krome_reset(ctx, pkg, "R4")
+    _r5(ctx, pkg)
+
+
+def _r5(ctx, pkg):
+    """The translation is a function of the reaction's own rate string: it is not memoised on the reaction (whose
+    __hash__/__eq__ ignore the rate string) nor on the converter.  Rule shared with C05.R4."""
+    from .c05 import CACHES
+    n = 0
+    for cls, meths in (("KROMEReaction", ("rateexpr",)), ("ExpressionConverter", ("read", "__str__", "__format__"))):
+        ci = pkg.cls(cls)
+        for m in meths:
+            fn = ci.methods.get(m)
+            if fn is None:
+                ctx.missing("R5", f"{cls}.{m}", (ci.file, ci.node.lineno), "method vanished")
+                continue
+            n += 1
+            decs = [ast.unparse(d) for d in fn.decorator_list]
+            bad = [d for d in decs if any(c in d for c in CACHES)]
+            ctx.check(not bad, "R5", f"{cls}.{m}:not-memoised", (ci.file, fn.lineno), "translated afresh for every reaction" if not bad else
+                      f"memoised ({bad[0]}): the cache key is the reaction/converter object, whose equality ignores the rate string -- a reaction equal to an earlier one "
+                      "(same reactants, products, temperature range) gets that reaction's C expression", found=", ".join(decs))
+    ctx.floor("R5", "translation entry points", n, 4)
 
 
 def _r1(ctx, gr):
@@ -120,6 +143,44 @@ def _callbacks(cls_node):
     return out
 
 
+def _children_used(cb):
+    """Which children of its argument a callback returns: -> (set of constant indexes, form)
+    form: 'single' ((x,) = x; return x.value -- exactly one child or an error), 'join' (all joined), 'indexed', 'unrecognised'"""
+    if cb is None:
+        return set(), "unrecognised"
+    if isinstance(cb, ast.Lambda):
+        arg = cb.args.args[1].arg if len(cb.args.args) > 1 else None
+        body = ast.unparse(cb.body)
+        if arg and re.fullmatch(r"""['"]{2}\.join\(%s\)""" % arg, body.replace(" ", "")):
+            return set(), "join"
+        nodes_ = [cb.body]
+    else:
+        arg = cb.args.args[1].arg if len(cb.args.args) > 1 else None
+        nodes_ = cb.body
+        st = [x for x in cb.body if not (isinstance(x, ast.Expr) and isinstance(x.value, ast.Constant))]
+        if len(st) == 2 and isinstance(st[0], ast.Assign) and isinstance(st[0].targets[0], ast.Tuple) and len(st[0].targets[0].elts) == 1 \
+                and isinstance(st[0].value, ast.Name) and st[0].value.id == arg and isinstance(st[1], ast.Return):
+            return {0}, "single"
+        if len(st) == 1 and isinstance(st[0], ast.Return) and arg and re.fullmatch(r"""['"]{2}\.join\(%s\)""" % arg, ast.unparse(st[0].value).replace(" ", "")):
+            return set(), "join"
+    used = set()
+    whole = False
+    for top in nodes_:
+        for n in ast.walk(top):
+            if isinstance(n, ast.Subscript) and isinstance(n.value, ast.Name) and n.value.id == arg:
+                try:
+                    used.add(int(ast.literal_eval(n.slice)))
+                except Exception:
+                    return set(), "unrecognised"
+            elif isinstance(n, ast.Call) and ast.unparse(n.func).endswith(".join") and any(isinstance(a, ast.Name) and a.id == arg for a in n.args):
+                whole = True
+    if whole:
+        return set(), "join"
+    if used:
+        return used, "indexed"
+    return set(), "unrecognised"
+
+
 def _r2(ctx, pkg, ci, gr):
     base = _callbacks(ci.nested["Expression"]) if "Expression" in ci.nested else {}
     tr = {"c": {**base, **_callbacks(ci.nested.get("CExpression", ast.ClassDef(body=[])))},
@@ -143,6 +204,42 @@ def _r2(ctx, pkg, ci, gr):
                   f"the C callback `{name}` is not the plain concatenation of its children: tokens (e.g. parentheses) can be dropped or re-ordered, changing the value of the expression "
                   "(x/(a/b) -> x/a/b)",
                   expected=f"lambda self, x: {sep}.join(x)", found=" ".join(ast.unparse(cb).split())[:120] if cb is not None else "missing")
+    # number literals: the callback must hand over every token of the literal, and every exponent letter the grammar
+    # accepts must be one C understands (the callbacks copy the letter)
+    for gname, other in (("fgrammar", "c"), ("cgrammar", "fortran")):
+        text = gr.get(gname)
+        if not text:
+            continue
+        try:
+            rules, terms = _rules(text)
+        except Exception:
+            continue
+        exps = rules.get("scientific", [])
+        if not exps:
+            ctx.missing("R2", f"{gname}:scientific", (CF, 0), "no `scientific` rule in the grammar")
+            continue
+        maxlen = max(len(e) for e in exps)
+        cb = tr[other].get("scientific")
+        used, form = _children_used(cb)
+        k = f"{gname}:scientific -> {other} callback keeps every token"
+        if form == "unrecognised":
+            ctx.unrec("R2", k, (CF, getattr(cb, "lineno", 0)), "cannot tell which children the `scientific` callback keeps")
+        else:
+            dropped = form == "indexed" and any(len({i if i >= 0 else L + i for i in used if -L <= i < L}) < L for L in {len(e) for e in exps})
+            ctx.check(not dropped, "R2", k, (CF, getattr(cb, "lineno", 0)),
+                      f"a literal is returned whole ({form})" if not dropped else
+                      f"the callback picks children {sorted(used)} of a literal that can have {maxlen} tokens (NUMBER letter SIGN NUMBER): the others -- the sign of the exponent -- are dropped",
+                      expected="one token returned whole, or all children joined", found=" ".join(ast.unparse(cb).split())[:140] if cb is not None else "missing")
+        if other == "c":
+            letters = set()
+            for e in exps:
+                for nme, is_t in e:
+                    if is_t and nme not in ("NUMBER", "SIGN") and nme in terms:
+                        pat = getattr(terms[nme].pattern, "value", "")
+                        letters.add(pat)
+            bad = sorted(x for x in letters if x not in ("e", "E"))
+            ctx.check(not bad, "R2", f"{gname}:exponent letters", (CF, 0), "the exponent letters of the grammar are C's (e/E)" if not bad else
+                      f"the grammar accepts the exponent letter(s) {bad}, which no callback turns into C's `e`", expected="['E', 'e']", found=str(sorted(letters)))
     cp = tr["c"].get("power")
     src = ast.unparse(cp) if cp is not None else ""
     ctx.check("pow(" in src and "replace('**', ', ')" in src, "R2", "CExpression.power", (CF, getattr(cp, "lineno", 0)), "a**b becomes pow(a, b): no `**` survives in C output", found=src[:100])
@@ -221,6 +318,11 @@ def _r3(ctx, pkg):
 
 
 MUTANTS = [
+    {"name": "krome-rateexpr-lru-cache", "file": KR, "old": "    def rateexpr(self, grain: Grain = None) -> str:", "new": "    @__import__('functools').lru_cache(maxsize=None)\n    def rateexpr(self, grain: Grain = None) -> str:", "rules": ["R5"]},
+    {"name": "scientific-mantissa-e-last", "file": CF, "old": "            (s,) = s\n            return s.value", "new": "            if len(s) == 1:\n                return s[0].value\n            return f\"{s[0]}e{s[-1]}\"", "rules": ["R2"]},
+    {"name": "fortran-grammar-D-exponent", "edits": [
+        {"file": CF, "old": "        scientific: NUMBER ((E1 | E2) SIGN? NUMBER)?\n        atom: scientific\n            | power\n            | variable\n            | listvar\n            | func\n            | LPAREN expression RPAREN\n        PLUS", "new": "        scientific: NUMBER ((E1 | E2 | D1) SIGN? NUMBER)?\n        atom: scientific\n            | power\n            | variable\n            | listvar\n            | func\n            | LPAREN expression RPAREN\n        PLUS"},
+        {"file": CF, "old": '        POW: "**"\n', "new": '        POW: "**"\n        D1: "D"\n'}], "rules": ["R2"]},
     {"name": "c-power-callback-deleted", "file": CF, "old": "        power = lambda self, p: f\"pow({''.join(p).replace('**', ', ')})\"\n", "new": "", "rules": ["R2"]},
     {"name": "c-atom-drops-parentheses", "file": CF, "old": "    class CExpression(Expression):\n", "new": "    class CExpression(Expression):\n        def atom(self, a):\n            if len(a) == 3 and \" \" not in a[1]:\n                return a[1]\n            return \"\".join(a)\n\n", "rules": ["R2"]},
     {"name": "krome-user-vars-not-reset", "file": KR, "old": "        cls._user_vars = []\n\n    @classmethod\n    def preprocessing", "new": "\n    @classmethod\n    def preprocessing", "rules": ["R4"]},
